@@ -218,14 +218,20 @@ TR_LEN(unsigned char, unsigned_char)
  * points into [s, s + strlen(s)].  LC_STRLEN is set by the harness to the C-string length of the subject.           */
 enum { LC_strtol = 1, LC_strtoll, LC_strtoul, LC_strtoull, LC_strtod, LC_strtof };
 struct { int calls; int which; const char *s; int base; _Bool has_end; size_t endoff; long long sret; unsigned long long uret; double dret; float fret; } LC;
-size_t LC_STRLEN;
+size_t LC_STRLEN; const char *LC_BASE;
 long long nondet_llong(void); unsigned long long nondet_ullong(void); double nondet_double(void); float nondet_float(void);
 static void lc_common(int which, const char *s, char **endp, int base)
 {
-    __CPROVER_assert(__CPROVER_r_ok(s, LC_STRLEN + 1), "strto*.precondition: the subject is a readable NUL-terminated string");
+    __CPROVER_assert(LC_BASE != (const char *)0 || __CPROVER_r_ok(s, LC_STRLEN + 1), "strto*.precondition: the subject is a readable NUL-terminated string");
     __CPROVER_assert(which >= LC_strtod || base == 0 || (base >= 2 && base <= 36), "strto*.precondition: base is 0 or 2..36");
     LC.calls++; LC.which = which; LC.s = s; LC.base = base; LC.has_end = (endp != (char **)0);
-    size_t k = nondet_size_t(); __CPROVER_assume(k <= LC_STRLEN);
+    size_t remaining = LC_STRLEN;
+    if (LC_BASE != (const char *)0) {       /* subject is the tail of a registered NUL-terminated string (format-string parser) */
+        __CPROVER_assert(__CPROVER_same_object(s, LC_BASE) && (size_t)__CPROVER_POINTER_OFFSET(s) <= LC_STRLEN, "strto*.precondition: the subject starts inside the NUL-terminated string (at or before its terminator)");
+        remaining = LC_STRLEN - (size_t)__CPROVER_POINTER_OFFSET(s);
+    }
+    size_t k = nondet_size_t(); __CPROVER_assume(k <= remaining);
+    if (which < LC_strtod && base == 10 && remaining > 0 && *s >= '0' && *s <= '9') __CPROVER_assume(k >= 1);    /* a leading decimal digit is always consumed */
     LC.endoff = k;
     if (endp != (char **)0) *endp = (char *)s + k;
 }
